@@ -40,6 +40,7 @@ const (
 	ReqEnum        = 20
 	ReqBuilder     = 21
 	ReqDvBuild     = 22
+	ReqStoredBuild = 23
 )
 
 var Plugin = &zap.ZapPlugin{}
